@@ -451,6 +451,49 @@ pub fn real_texts() -> Vec<(String, String)> {
     v
 }
 
+/// observation of `hulc::bdl::Data::new`: the typed elements
+pub fn observe_data(text: &str) -> Value {
+    use hulc::bdl::Schedule;
+    let n = num_json;
+    let pts2 = |p: &hulc::bdl::Polygon| p.0.iter().map(|q| json!([n(q.x), n(q.y)])).collect::<Vec<_>>();
+    match std::panic::catch_unwind(std::panic::AssertUnwindSafe(|| hulc::bdl::Data::new(text))) {
+        Err(_) => json!({"panic": true}),
+        Ok(Err(e)) => json!({"err": format!("{e:#}").chars().take(160).collect::<String>()}),
+        Ok(Ok(d)) => json!({"ok": {
+            "materials": d.db.materials.iter().map(|(k, m)| json!({"key": k, "name": m.name, "group": m.group,
+                "properties": m.properties.map(|p| json!([on(p.thickness), n(p.conductivity), n(p.density), n(p.specificheat), on(p.vapourdiffusivity)])), "resistance": on(m.resistance)})).collect::<Vec<_>>(),
+            "glasses": d.db.glasses.iter().map(|(k, g)| json!({"key": k, "name": g.name, "group": g.group, "conductivity": n(g.conductivity), "g_gln": n(g.g_gln)})).collect::<Vec<_>>(),
+            "frames": d.db.frames.iter().map(|(k, f)| json!({"key": k, "name": f.name, "group": f.group, "conductivity": n(f.conductivity), "absorptivity": n(f.absorptivity), "width": n(f.width)})).collect::<Vec<_>>(),
+            "wallcons": d.db.wallcons.iter().map(|(k, c)| json!({"key": k, "name": c.name, "group": c.group, "material": c.material,
+                "thickness": c.thickness.iter().map(|x| n(*x)).collect::<Vec<_>>(), "absorptance": n(c.absorptance)})).collect::<Vec<_>>(),
+            "wincons": d.db.wincons.iter().map(|(k, c)| json!({"key": k, "name": c.name, "group": c.group, "glass": c.glass, "frame": c.frame, "framefrac": n(c.framefrac),
+                "infcoeff": n(c.infcoeff), "deltau": n(c.deltau), "gglshwi": on(c.gglshwi)})).collect::<Vec<_>>(),
+            "spaces": d.spaces.iter().map(|s| json!({"name": s.name, "stype": s.stype, "polygon": pts2(&s.polygon), "height": n(s.height), "x": n(s.x), "y": n(s.y), "z": n(s.z),
+                "angle": n(s.angle_with_building_north), "insidete": s.insidete, "floor": s.floor, "power": n(s.power), "veei_obj": n(s.veei_obj), "veei_ref": n(s.veei_ref),
+                "spacetype": s.spacetype, "spaceconds": s.spaceconds, "systemconds": s.systemconds, "floor_multiplier": n(s.floor_multiplier), "multiplier": n(s.multiplier),
+                "ismultiplied": s.ismultiplied, "airchanges_h": on(s.airchanges_h)})).collect::<Vec<_>>(),
+            "walls": d.walls.iter().map(|w| json!({"name": w.name, "space": w.space, "cons": w.cons, "location": w.location, "x": n(w.x), "y": n(w.y), "z": n(w.z),
+                "angle": n(w.angle_with_space_north), "tilt": n(w.tilt), "polygon": w.polygon.as_ref().map(|p| pts2(p)), "bounds": format!("{:?}", w.bounds), "nextto": w.nextto})).collect::<Vec<_>>(),
+            "windows": d.windows.iter().map(|w| json!({"name": w.name, "wall": w.wall, "cons": w.cons, "x": n(w.x), "y": n(w.y), "height": n(w.height), "width": n(w.width),
+                "setback": n(w.setback), "coefs": w.coefs.as_ref().map(|c| c.iter().map(|x| n(*x)).collect::<Vec<_>>()),
+                "overhang": w.overhang.as_ref().map(|o| json!([n(o.a), n(o.b), n(o.depth), n(o.width), n(o.angle)])),
+                "left_fin": w.left_fin.as_ref().map(|f| json!([n(f.a), n(f.b), n(f.depth), n(f.height)])),
+                "right_fin": w.right_fin.as_ref().map(|f| json!([n(f.a), n(f.b), n(f.depth), n(f.height)]))})).collect::<Vec<_>>(),
+            "thermal_bridges": d.thermal_bridges.iter().map(|t| json!({"name": t.name, "length": on(t.length), "psi": n(t.psi), "frsi": n(t.frsi), "tbtype": t.tbtype})).collect::<Vec<_>>(),
+            "shadings": d.shadings.iter().map(|s| json!({"name": s.name, "tran": n(s.tran), "refl": n(s.refl),
+                "rect": s.geometry.as_ref().map(|g| json!([n(g.x), n(g.y), n(g.z), n(g.height), n(g.width), n(g.azimuth), n(g.tilt)])),
+                "verts": s.vertices.as_ref().map(|v| v.iter().map(|p| json!([n(p.x), n(p.y), n(p.z)])).collect::<Vec<_>>())})).collect::<Vec<_>>(),
+            "schedules": d.schedules.iter().map(|s| match s {
+                Schedule::Day(x) => json!({"kind": "day", "name": x.name, "type": format!("{:?}", x.kind), "values": x.values.iter().map(|v| n(*v)).collect::<Vec<_>>()}),
+                Schedule::Week(x) => json!({"kind": "week", "name": x.name, "type": format!("{:?}", x.kind), "days": x.days}),
+                Schedule::Year(x) => json!({"kind": "year", "name": x.name, "type": format!("{:?}", x.kind), "days": x.days, "months": x.months, "weeks": x.weeks}),
+            }).collect::<Vec<_>>(),
+            "space_conditions": d.space_conditions.keys().collect::<Vec<_>>(), "system_conditions": d.system_conditions.keys().collect::<Vec<_>>(),
+            "meta": d.meta.keys().map(|k| format!("{:?}", k)).collect::<Vec<_>>(),
+        }}),
+    }
+}
+
 fn on(x: Option<f32>) -> Value {
     x.map_or(Value::Null, num_json)
 }
@@ -648,6 +691,28 @@ pub fn run(args: &Args) -> i32 {
     let mut rng = Rng::new(args.seed ^ 0xC18);
     let thorough = args.tier == "thorough";
     aux_cases(&mut cw, &mut rng.fork(7), args.n / 4, &args.out);
+    // typed elements (`Data::new`): shipped documents (a third of them per quick run), generated projects, damaged projects
+    {
+        let mut r2 = rng.fork(11);
+        for (i, (label, text)) in real_texts().iter().enumerate() {
+            if thorough || i % 3 == (args.seed as usize) % 3 {
+                cw.write(json!({"op": "bdldata", "kind": "typed-real", "label": label, "text": text, "impl": observe_data(text)}));
+            }
+        }
+        for i in 0..args.n / 8 {
+            let p = crate::bdlgen::gen_proj(&mut r2, &crate::bdlgen::GenOpts { rotated_spaces: i % 3 == 2, polygon_outlines: i % 2 == 1 });
+            let text = crate::bdlgen::print_proj(&p);
+            cw.write(json!({"op": "bdldata", "kind": "typed-generated", "label": format!("proj{i}"), "text": text, "description": serde_json::to_value(&p).ok(), "impl": observe_data(&text)}));
+            let lines: Vec<&str> = text.lines().collect();
+            for _ in 0..4 {
+                let li = r2.below(lines.len());
+                let kind = *r2.pick(&["delete", "duplicate", "swap-next", "remove-block", "num-to-text", "num-to-huge", "num-to-big", "num-to-negative", "rename-ref", "truncate-here"]);
+                if let Some(t2) = crate::props::c19::damage(&lines, li, kind, text.len()) {
+                    cw.write(json!({"op": "bdldata", "kind": "typed-damaged", "label": format!("proj{i}:{kind}@{li}"), "text": t2, "impl": observe_data(&t2)}));
+                }
+            }
+        }
+    }
     // 1. real files, as they are and re-printed
     let reals = real_texts();
     for (i, (label, text)) in reals.iter().enumerate() {
